@@ -322,6 +322,18 @@ pub fn split_off_front_matter<'s>(mut s: &'s str, delimiter: &str) -> Option<(&'
     }
 }
 
+/// Number of line endings (LF, CRLF or CR) in `s`.
+pub fn count_line_endings(s: &str) -> usize {
+    let mut rest = s;
+    let mut count = 0;
+    while let Some(n) = rest.find(|c| c == '\n' || c == '\r') {
+        count += 1;
+        rest = &rest[n..];
+        rest = &rest[line_ending_len(rest)..];
+    }
+    count
+}
+
 // Length of the line ending (LF, CRLF or CR) `s` starts with, or 0.
 fn line_ending_len(s: &str) -> usize {
     if s.starts_with("\r\n") {
